@@ -198,6 +198,9 @@ def _norm(ops):
             st[cur] = (frac, ns_abs)
             cur = t[1]
             frac, ns_abs = st.get(cur, (879305533, 0))
+        if t and t[0] == "slash-direct":
+            o = "slash " + " ".join(t[1:])        # the module's sudo entry point called directly: judged like App::sudo
+            t = o.split()
         if t and t[0] == "advance" and len(t) in (2, 3, 4) and t[1].isdigit():
             ns = int(t[3]) if len(t) == 4 and t[3].isdigit() else 0
             f = frac + ns
